@@ -111,9 +111,27 @@ def _mono_mul(m1, m2):
     return tuple(sorted(d.items()))
 
 
+SQ_RULES = {}     # atom id -> Poly replacing atom^2 (declared relations, e.g. w^2 -> 1 - x^2 - y^2 - z^2 of a unit quaternion)
+
+
+def declare_unit(vec):
+    """declare sum(v_i^2) == 1 for a vector of plain symbols: the first symbol's square is rewritten (leading monomial v_0^2;
+    coprime with every other rule's leading monomial, so the normal form stays unique)"""
+    ids = []
+    for v in vec:
+        (m, c), = v.num.items()
+        ids.append(m[0][0])
+    repl = p_const(1)
+    for i in ids[1:]:
+        repl = p_add(repl, {((i, 2),): Fraction(1)}, -1)
+    SQ_RULES[ids[0]] = repl
+
+
 def _needs_reduce(m):
     signs = abss = None
     for a, e in m:
+        if e >= 2 and a in SQ_RULES:
+            return True
         k = _ATOMS[a]
         if k.kind == "fn":
             n = k.name
@@ -143,7 +161,12 @@ def _reduce_mono(m):
     for a, e in m:
         k = _ATOMS[a]
         if k.kind != "fn":
-            rest.append((a, e))
+            if e >= 2 and a in SQ_RULES:
+                res = p_mul(res, p_pow(SQ_RULES[a], e // 2))
+                if e % 2:
+                    rest.append((a, 1))
+            else:
+                rest.append((a, e))
             continue
         n = k.name
         if n == "sqrt" and e >= 2:
